@@ -1,4 +1,4 @@
-import FluteModel.Lemmas.SessionStream
+import FluteModel.Lemmas.SessionBuild
 import FluteModel.Lemmas.SessionCodec
 /-
   C02 — loss recovery: any loss / duplication pattern (order preserved) that leaves an FDT instance
@@ -89,6 +89,108 @@ theorem recoverable_delivers (c : Codec) (rc : RxCfg) (o : ObjCfg)
     (hend : AllDec c o (pktSyms (pre ++ Ev.fdt true :: post))) :
     1 ≤ (runObj c.canDecode rc o {} (pre ++ Ev.fdt true :: post)).completes :=
   recoverable_core c rc o hN hfit pre post hgen hpre hatt hclose hend
+
+/-- **The sender fact C02 needs** (blockencoder.rs after the D3 repair, filedesc.rs `is_last_transfer`),
+    for ANY block sizes / parity / window ≥ 1 / scheme whose blocks can be encoded and any
+    `max_transfer_count`: over the whole life of a non-carousel object - `m - 1` ordinary transfers and
+    the last one - every packet is genuine and the close-object flag sits on the very last packet of
+    the last transfer, nowhere else. -/
+theorem close_flag_only_on_last_packet (s : SessCfg) (o : ObjCfg) (hw : 1 ≤ s.w) (hN : o.ks.isEmpty = false)
+    (hblocks : ∀ (b k : Nat), o.ks[b]? = some k → 1 ≤ k ∧ blockFails o.scheme k o.p = false)
+    (tr trLast : List Sym) (h1 : emitTransfer (objEnc s o false) = some tr) (h2 : emitTransfer (objEnc s o true) = some trLast) :
+    (∀ q, q ∈ life tr trLast o.transfers → Genuine o q) ∧ OnlyLast (life tr trLast o.transfers) :=
+  ⟨(life_facts s o hw hN hblocks tr trLast h1 h2).1, (life_facts s o hw hN hblocks tr trLast h1 h2).2.1⟩
+
+/-- **C02, session level: sender model ∘ channel ∘ receiver model.**  `stream` = ANY interleaving of
+    the session's sources in which the object's packets are, in order, what its block encoder emits over
+    its life (`hlife`: a prefix of `life`; each object has its own encoder, the scheduler only
+    interleaves) and the packets of FDT instance `f` belong to its transfer listing (`hfdtsrc`).
+    `mults` = ANY loss / duplication pattern (order preserved).  Reception hypotheses only: by the end
+    of `ps1` instance `f` has been received whole; no close-object packet of the object arrived before
+    (D30); what arrives holds decodable symbols of every block of the object.  Then the object writer
+    gets `complete`.  (FullFDT: every instance lists the object; see `recoverable_delivers` for the
+    general attach condition.) -/
+theorem recoverable_delivers_session (cF cO : Codec) (rc : RxCfg) (s : SessCfg) (o : ObjCfg)
+    (hto : o.toi ≠ 0) (hN : o.ks.isEmpty = false) (hfit : Fits rc o) (hw : 1 ≤ s.w)
+    (hblocks : ∀ (b k : Nat), o.ks[b]? = some k → 1 ≤ k ∧ blockFails o.scheme k o.p = false)
+    (tr trLast : List Sym) (h1 : emitTransfer (objEnc s o false) = some tr) (h2 : emitTransfer (objEnc s o true) = some trLast)
+    (hall : ∀ f, f ∈ s.fdts → f.files.contains o.toi = true)
+    (f : FdtCfg) (hfind : s.fdts.find? (fun x => x.id == f.id) = some f)
+    (hfN : f.ks.isEmpty = false) (hflook : f.ks.size ≤ rc.maxLook)
+    (hfblocks : ∀ (b k : Nat), f.ks[b]? = some k → 1 ≤ k ∧ blockFails s.fdtScheme k s.fdtP = false)
+    (hfresh : blockDone cF.canDecode f.ks s.fdtP [] 0 = false)
+    (trF : List Sym) (h3 : emitTransfer (fdtEnc s f) = some trF)
+    (stream : List Pkt)
+    (hlife : osyms o stream <+: life tr trLast o.transfers)
+    (hfdtsrc : ∀ q, q ∈ fsyms f.id stream → q ∈ trF)
+    (mults : List Nat) (ps1 ps2 : List Pkt) (hrecv : applyMults stream mults = ps1 ++ ps2)
+    (hwhole : AllDec cF (fdtObj s f) (fsyms f.id ps1))
+    (hnoclose : ∀ q, q ∈ osyms o ps1 → q.close = false)
+    (hdec : AllDec cO o (osyms o (ps1 ++ ps2)))
+    (hsome : osyms o (ps1 ++ ps2) ≠ []) :
+    1 ≤ (observe cF.canDecode cO.canDecode rc s o (applyMults stream mults)).completes := by
+  obtain ⟨g1, g2, _⟩ := life_facts s o hw hN hblocks tr trLast h1 h2
+  obtain ⟨pre, hpre⟩ := hlife
+  -- the FDT's own transfer listing: genuine, never the close-object flag
+  have hfEnc : EncOK (fdtEnc s f) := by
+    refine ⟨hw, ?_, hfblocks⟩
+    simp only [fdtEnc]
+    exact size_pos_of_nonempty _ hfN
+  obtain ⟨f1, _, _, _, f5⟩ := emitTransfer_facts _ hfEnc trF h3
+  apply recoverable_delivers_stream cF cO rc s o hto hN hfit hall f hfind hfN hflook hfresh stream mults ps1 ps2 hrecv
+  · intro p hp h0 hid
+    have hq : toSym p ∈ fsyms f.id stream := by
+      simp only [fsyms, List.mem_map, List.mem_filter]
+      exact ⟨p, ⟨hp, by simp [h0, hid]⟩, rfl⟩
+    have hq' := hfdtsrc _ hq
+    exact ⟨f1 _ hq', f5 rfl _ hq'⟩
+  · intro q hq
+    apply g1
+    rw [← hpre]; exact List.mem_append_left _ hq
+  · apply onlyLast_prefix _ pre
+    rw [hpre]; exact g2
+  · exact hwhole
+  · exact hnoclose
+  · exact hdec
+  · exact hsome
+
+/-- **C02 over the model's own sender, ANY schedule.**  `srcs` = a source table in which the object
+    and FDT instance `f` are fresh sources holding the listings of their block encoders (what `mkSrcs`
+    builds), `sched` = ANY schedule (which source emits next - the scheduler's business, C11-C13),
+    `stream` = the merged stream, `mults` = ANY loss / duplication pattern.  Only reception hypotheses are
+    left: `f` received whole by the end of `ps1`, no close-object packet of the object before that (D30),
+    decodable symbols of every block of the object among what arrives. -/
+theorem recoverable_delivers_built (cF cO : Codec) (rc : RxCfg) (s : SessCfg) (o : ObjCfg)
+    (hto : o.toi ≠ 0) (hN : o.ks.isEmpty = false) (hfit : Fits rc o) (hw : 1 ≤ s.w) (hm : 1 ≤ o.transfers)
+    (hblocks : ∀ (b k : Nat), o.ks[b]? = some k → 1 ≤ k ∧ blockFails o.scheme k o.p = false)
+    (tr trLast : List Sym) (h1 : emitTransfer (objEnc s o false) = some tr) (h2 : emitTransfer (objEnc s o true) = some trLast)
+    (hall : ∀ f, f ∈ s.fdts → f.files.contains o.toi = true)
+    (f : FdtCfg) (hfind : s.fdts.find? (fun x => x.id == f.id) = some f)
+    (hfN : f.ks.isEmpty = false) (hflook : f.ks.size ≤ rc.maxLook)
+    (hfblocks : ∀ (b k : Nat), f.ks[b]? = some k → 1 ≤ k ∧ blockFails s.fdtScheme k s.fdtP = false)
+    (hfresh : blockDone cF.canDecode f.ks s.fdtP [] 0 = false)
+    (trF : List Sym) (h3 : emitTransfer (fdtEnc s f) = some trF)
+    (srcs : List Src) (sched : List Slot) (stream : List Pkt)
+    (hno0 : ∀ k, k ∈ sched → k ≠ Slot.obj 0)
+    (hbuild : buildStream srcs sched = some stream)
+    (hsrcO : findSrc srcs (Slot.obj o.toi) =
+      some { slot := Slot.obj o.toi, tr := tr, trLast := trLast, transfers := o.transfers, carousel := false, t := 0, rest := [] })
+    (hsrcF : findSrc srcs (Slot.fdt f.id) =
+      some { slot := Slot.fdt f.id, tr := trF, trLast := trF, transfers := 1, carousel := true, t := 0, rest := [] })
+    (mults : List Nat) (ps1 ps2 : List Pkt) (hrecv : applyMults stream mults = ps1 ++ ps2)
+    (hwhole : AllDec cF (fdtObj s f) (fsyms f.id ps1))
+    (hnoclose : ∀ q, q ∈ osyms o ps1 → q.close = false)
+    (hdec : AllDec cO o (osyms o (ps1 ++ ps2)))
+    (hsome : osyms o (ps1 ++ ps2) ≠ []) :
+    1 ≤ (observe cF.canDecode cO.canDecode rc s o (applyMults stream mults)).completes := by
+  have hlife : osyms o stream <+: life tr trLast o.transfers := by
+    obtain ⟨x', hx'⟩ := buildStream_object o hto sched srcs stream _ hbuild hsrcO rfl
+    rw [remaining_fresh _ _ _ _ hm] at hx'
+    exact ⟨_, hx'⟩
+  have hfdtsrc : ∀ q, q ∈ fsyms f.id stream → q ∈ trF :=
+    buildStream_fdt f.id sched srcs stream _ hno0 hbuild hsrcF rfl (by intro r hr; simp at hr)
+  exact recoverable_delivers_session cF cO rc s o hto hN hfit hw hblocks tr trLast h1 h2 hall f hfind hfN hflook hfblocks
+    hfresh trF h3 stream hlife hfdtsrc mults ps1 ps2 hrecv hwhole hnoclose hdec hsome
 
 /-- after a close-object packet only copies of it arrive (what "B only on the very last packet of the
     last transfer" means for a received sub-multiset, order preserved) -/
